@@ -742,6 +742,9 @@ class Fxp():
 
         if vdtype is None:
             vdtype = val.dtype
+            if vdtype.kind in 'iuf' and vdtype.itemsize < 8:
+                # a list of narrow numpy scalars: the values must not be scaled in their own narrow type
+                vdtype = np.dtype(np.float64 if vdtype.kind == 'f' else np.int64)
         
         # scaling conversion
         self.scaled = False
